@@ -16,6 +16,7 @@ from hippolyzer.lib.base.datatypes import *
 class HippoLLSDBaseFormatter(base_llsd.base.LLSDBaseFormatter):
     UUID: callable
     ARRAY: callable
+    BINARY: callable
 
     def __init__(self):
         super().__init__()
@@ -24,6 +25,9 @@ class HippoLLSDBaseFormatter(base_llsd.base.LLSDBaseFormatter):
         self.type_map[Vector3] = self.TUPLECOORD
         self.type_map[Vector4] = self.TUPLECOORD
         self.type_map[Quaternion] = self.TUPLECOORD
+        # bytes subclasses have to be mapped explicitly, the lookup is by exact type
+        self.type_map[JankStringyBytes] = self.BINARY
+        self.type_map[RawBytes] = self.BINARY
 
     def TUPLECOORD(self, v: TupleCoord):
         return self.ARRAY(v.data())
